@@ -357,6 +357,13 @@ def run_check(prop, tier, verif_seed, procs=None, out_evidence=True, max_runs=No
         if not mv:
             print(f'HARNESS-ERROR violation {key} did not reproduce in-process (seed {r["seed"]})', file=sys.stderr)
             return 2
+        if hasattr(eng, 'make_explicit'):   # explicit scheduler decisions instead of 'regenerate from seed'
+            xcase = eng.make_explicit(mcase, out)
+            xout = eng.execute(copy.deepcopy(xcase))
+            if xout['digest'] != out['digest']:
+                print(f'HARNESS-ERROR explicit-schedule replay of seed {r["seed"]} has a different digest', file=sys.stderr)
+                return 2
+            mcase, out = xcase, xout
         tag = f"{verif_seed}-{r['seed']}-{gi}"
         path = write_replay(v['property'], mcase, mv[0], out['digest'], tag)
         ok, same, txt = fresh_replay(path)
@@ -383,7 +390,7 @@ def run_check(prop, tier, verif_seed, procs=None, out_evidence=True, max_runs=No
         return 2
 
     wall = time.time() - t0
-    if out_evidence:
+    if out_evidence and not os.environ.get('VERIF_NO_EVIDENCE'):
         level = eng.LEVEL
         cov = {
             'evaluations': int(evals),
